@@ -63,7 +63,7 @@ def build_harness(race=False):
     return out
 
 
-def run_harness(args, stdin_obj=None, timeout=1800, race=False, env_extra=None, cwd=None):
+def run_harness(args, stdin_obj=None, timeout=1800, race=False, env_extra=None, cwd=None, crash_prop=None):
     """Run the harness; stdin JSON in, stdout JSON out (last line that parses as JSON object)."""
     exe = build_harness(race)
     env = goenv()
@@ -83,6 +83,16 @@ def run_harness(args, stdin_obj=None, timeout=1800, race=False, env_extra=None, 
         # exit status 4 = the harness's own watchdog: a work item made no progress (seen once: all workers parked in
         # runtime.GC() called by SendOnce, a stall of the Go runtime, not of Lightning Stream) - run it again
         sys.stderr.write('[harness] watchdog exit (attempt %d): %s\n%s\n' % (attempt + 1, ' '.join(args), p.stderr[:1500]))
+    if p.returncode == 2 and crash_prop and ('panic:' in p.stderr or 'fatal error:' in p.stderr) and 'lightningstream' in p.stderr:
+        # the driver process itself died of a Go panic raised inside Lightning Stream (e.g. in a background
+        # goroutine of the receiver): for properties about crashes that is the observation, not a broken driver
+        i = p.stderr.find('panic:')
+        if i < 0:
+            i = p.stderr.find('fatal error:')
+        return {'evaluations': 1, 'distinct': 0, 'traces': 1, 'samples': [], 'counters': {'process_crashes': 1},
+                'mismatches': [{'what': 'the process crashed while running %s: %s' % (' '.join(args[:1]), p.stderr[i:i + 700].replace('\n', ' | ')),
+                                'case': {'driver': list(args)[:1], 'stderr': p.stderr[i:i + 3000]},
+                                'sig': {'prop': crash_prop, 'class': 'process-crash', 'driver': list(args)[0]}}]}
     if p.returncode != 0:
         sys.stderr.write(p.stderr[:3000] + '\n...\n' + p.stderr[-3000:] if len(p.stderr) > 6000 else p.stderr)
         raise Inconclusive('harness exit %d: %s' % (p.returncode, ' '.join(args)))
